@@ -39,7 +39,7 @@ ASSUMPTIONS = [
   "sensor/actuator/body plugin ids) are switched on by editing a copy of the MjModel arrays",
   "round trip: the source MjData is made self-consistent with mj_forward first (put_data calls mj_kinematics on it); solver_niter: element 0 only; efc_J compared densified",
 ]
-BUDGET = {"quick": dict(examples=320, seconds=150, workers=16), "thorough": dict(examples=8000, seconds=1500, workers=16)}
+BUDGET = {"quick": dict(examples=320, seconds=420, workers=16), "thorough": dict(examples=8000, seconds=1500, workers=16)}
 
 
 # --------------------------------------------------------------------------------------
